@@ -251,11 +251,13 @@ def run_params(p, rep, record=True, reuse=False):
 
 def _shard(shard, seed, tier, n_cases):
     rep = Reporter(PID, tier, RULE)
+    cnt = [0]
     strat = engine.weighted([
         (6, sources.gen_params(max_hosts=60 if tier == "thorough" else 12, max_services=14 if tier == "thorough" else 12)),
         (1, sources.gen_params_many_features()),
         (1, sources.gen_params_large()),
-        (1, sources.gen_params_near_capacity())])
+        (1, sources.gen_params_near_capacity()),
+        (1, sources.gen_params_many_probabilities())])
 
     @hypothesis.seed(seed)
     @settings(max_examples=n_cases, deadline=None, database=None, phases=[Phase.generate],
@@ -263,6 +265,13 @@ def _shard(shard, seed, tier, n_cases):
     @given(p=strat, follow=st.integers(0, 7))
     def t(p, follow):
         run_params(p, rep)
+        if p.get("exploit_probs", 1) is None and p.get("privesc_probs", 1) is None and (p.get("num_exploits") or 0) > 100:
+            # hundreds of sampled probabilities per scenario: three more seeds, spread by a hash (Hypothesis
+            # repeats simple examples, and the ends of (0, 1] are only visited by many distinct draws)
+            for k in range(3):
+                cnt[0] += 1
+                run_params(dict(p, seed=common.mix_seed(seed, "many-probabilities", shard, cnt[0]) % 2**32), rep)
+            rep.count("sampled-probabilities-extra-seeds", 3)
         if follow <= 2 and p["num_hosts"] <= 20:
             # the same request again, then a request that differs in ONE count, on a reused generator object
             run_params(p, rep, reuse=True)
